@@ -199,7 +199,8 @@ def run(ctx):
         s.count("timeout=%s" % timeout)
     # non-integer configured timeouts: 2.5 s, 0.75 s, 1.25 s (in ticks of a quarter second)
     for _ in range(6000 if ctx.thorough else 800):
-        ticks = r.choice([10, 3, 5])
+        # (2.5 s, 0.75 s, 1.25 s; and 5 s, 15 s, 60.25 s with units arriving at quarter seconds)
+        ticks = r.choice([10, 3, 5, 20, 60, 241])
         evs, big = timed_history(r, ticks)
         hs.append((r.choice(["astm", "lis2a", "json"]), ticks, evs, {"nontrivial": big, "scale": 4}))
         s.count("timeout=%s/4" % ticks)
